@@ -12,13 +12,16 @@ from ..shared import s1_sites
 PROPERTY = "C11"
 RULES = {
     "R1": "_LinkBox.erase rewires the neighbours and clears self.value only — it never writes its own prev/next, "
-    "so a cursor parked on an erased box can continue from the original place",
+    "so a cursor parked on an erased box can continue from the original place"
+    " ; no other field of the erased box (e.g. its owner) is rewritten either",
     "R2": "every yield of DoublyLinkedSet.__iter__/__reversed__ is control-dependent on the box not being erased, "
     "the cursor advances through the box's own next/prev, and the loop ends only at the root",
     "R3": "length and id→box map change together on every path; every insertion entry point reaches "
-    "_insert_one_after; there the already-present value is removed before the new box is linked and mapped",
+    "_insert_one_after; there the already-present value is removed before the new box is linked and mapped"
+    " ; the anchor's successor is read after that removal and exactly four link writes splice the new box",
     "R4": "RecursiveGraphIterator creates sub-iterators lazily inside the generator, after yielding the owning "
-    "node, and treats GRAPH and GRAPHS attributes alike (shared rule S1)",
+    "node, and treats GRAPH and GRAPHS attributes alike (shared rule S1)"
+    " ; the per-node loop walks the live container (the graph or reversed(graph)), not a slice or copy",
 }
 FLOORS = {"R1": 3, "R2": 4, "R3": 8, "R4": 3}
 EXPLANATION = (
